@@ -54,9 +54,17 @@ def pipeline_instance():
         if F == 257:
             dhtv = pa.DHTVPermutationAlignment.from_stft_size(512)
         else:
-            width = F // 3
-            dhtv = pa.DHTVPermutationAlignment(stft_size=2 * (F - 1), segment_start=(F - width) // 2, segment_width=width,
-                                               segment_shift=max(1, width // 3), main_iterations=20, sub_iterations=2)
+            # the similarity metric of the aligner is an option; so is the segment geometry: a centred first segment with shifted
+            # segments on both sides, or a wide first segment close to the upper band edge (no shifted segment fits above it)
+            metric = ['cos', 'euclidean', 'cos', 'multiply'][(inp['seed'] // 3) % 4]
+            if (inp['seed'] // 5) % 2:
+                width = (2 * F) // 3
+                start, shift = F - width - 3, max(1, width // 4)
+            else:
+                width = F // 3
+                start, shift = (F - width) // 2, max(1, width // 3)
+            dhtv = pa.DHTVPermutationAlignment(stft_size=2 * (F - 1), segment_start=start, segment_width=width, segment_shift=shift,
+                                               main_iterations=20, sub_iterations=2, similarity_metric=metric)
         _, a, b = dhtv.alignment_plan[0]
         field = np.stack([rng.permutation(K) for _ in range(F)], axis=1)
         maj = rng.permutation(K)
